@@ -191,7 +191,7 @@ def fleet(props=("C14",), cap=2, n_loads=3, sym=("gap", "delay", "transit"), con
 
 
 def conveyor(props=("C12", "C13"), kind="cconv", acc=1, cap=3, n_items=3, consumer="eager", sym=("gap",), speed=1, item_len=1, slot=1,
-             length=None, twin=False, gap_hi=4, svc_hi=6, n_prod=1, bystander=False):
+             length=None, twin=False, gap_hi=4, svc_hi=6, n_prod=1, bystander=False, feeder=False):
     """producer: reserve_put/put with symbolic gaps; consumer: reserve_get, get, then busy for a symbolic service time"""
     def fn(ctx):
         load_repo()
@@ -224,6 +224,7 @@ def conveyor(props=("C12", "C13"), kind="cconv", acc=1, cap=3, n_items=3, consum
             svc = [0] * n_items
         items = [Flow(f"y{k}", item_len) for k in range(n_items)]
         E, R, G = {}, {}, {}
+        W = {}                   # item k was put while a head item was already waiting at the exit
         order_out = []
         F.step_hooks.append(_watch_ready(F, e, R))
         pending_put = {"since": None}
@@ -231,13 +232,49 @@ def conveyor(props=("C12", "C13"), kind="cconv", acc=1, cap=3, n_items=3, consum
         entry_seq = []
         got_seq = []
 
+        ef = None
+        if feeder:
+            # the items reach the belt under observation over another, faster conveyor of the same kind (a transfer process moves them across):
+            # whatever an item carries from its first belt (entry stamps, stall bookkeeping) must not influence the second one
+            if kind == "sconv":
+                ef = ConveyorBelt(env, "FEED", capacity=2, delay=slot / 2, accumulating=1)
+            else:
+                ef = ConveyorBelt(env, "FEED", conveyor_length=2 * item_len, speed=2 * speed, item_length=item_len, accumulating=1)
+            ef.src_node = Stub("P0")
+            ef.dest_node = Stub("X")
+
+        def feeder_producer():
+            for k in range(n_items):
+                yield env.timeout(gaps[k])
+                tok = ef.reserve_put()
+                yield tok
+                ef.put(tok, items[k])
+
+        def transfer():
+            while True:
+                tg = ef.reserve_get()
+                yield tg
+                it = ef.get(tg)
+                k = int(it.id[1:])
+                tok = e.reserve_put()
+                pending_put["since"] = env.now
+                yield tok
+                pending_put["since"] = None
+                W[k] = bool(F.store_of(e).ready_items)
+                e.put(tok, it)
+                E[k] = env.now
+                entry_seq.append(k)
+
         def producer(which=0):
+            if feeder:
+                return
             for k in range(which, n_items, n_prod):
                 yield env.timeout(gaps[k])
                 tok = e.reserve_put()
                 pending_put["since"] = env.now
                 yield tok
                 pending_put["since"] = None
+                W[k] = bool(F.store_of(e).ready_items)
                 e.put(tok, items[k])
                 E[k] = env.now
                 entry_seq.append(k)
@@ -340,8 +377,12 @@ def conveyor(props=("C12", "C13"), kind="cconv", acc=1, cap=3, n_items=3, consum
             if F.occupancy(e) > capacity:
                 F.soft(f"C12:more-than-capacity-items-on-the-belt@{tag}", {"occ": F.occupancy(e)})
         F.step_hooks.append(cap_monitor)
-        for w in range(n_prod):
-            env.process(producer(w))
+        if feeder:
+            env.process(feeder_producer())
+            env.process(transfer())
+        else:
+            for w in range(n_prod):
+                env.process(producer(w))
         env.process(consumer_p())
         t_end = 0
         for g in gaps:
@@ -355,6 +396,7 @@ def conveyor(props=("C12", "C13"), kind="cconv", acc=1, cap=3, n_items=3, consum
         # re-index everything by entry rank (with two producers the item numbers are not in entry order)
         rank = {k: pos for pos, k in enumerate(entry_seq)}
         E = {rank[k]: v for k, v in E.items()}
+        W = {rank[k]: v for k, v in W.items() if k in rank}
         G = {rank[k]: v for k, v in G.items() if k in rank}
         order_out = [rank[k] for k in order_out if k in rank]
         items = [items[k] for k in entry_seq] + [it for k, it in enumerate(items) if k not in rank]
@@ -439,7 +481,8 @@ def conveyor(props=("C12", "C13"), kind="cconv", acc=1, cap=3, n_items=3, consum
                         hi = b if ctx.le(b, Rk) else Rk
                         if ctx.lt(lo, hi):
                             stopped = stopped + (hi - lo)
-                            if ctx.lt(a, E[k]):
+                            if ctx.lt(a, E[k]) or (W.get(k) and ctx.eq(a, E[k])):
+                                # (in the very instant a stall begins the order of the two events decides: the item was put after the head had arrived)
                                 entered_during_a_stall = True
                     ctx.hit("C13:ready-time-checked")
                     if ctx.lt(Rk, E[k] + travel + stopped - tol):
